@@ -406,3 +406,42 @@ func TestC05_P_FileRangeHistory(t *testing.T) {
 		ev.Sample(map[string]any{"file": fc.Desc, "steps": steps, "readers": nreaders, "needed_blocks": len(want), "total_blocks": len(fc.Tree.PreOrder())})
 	})
 }
+
+// Chunks of the largest size the chunker allows (1 MiB) and its neighbour, distinct contents: a range read must still only
+// request the leaves it touches.
+func TestC05_R_LargestChunks(t *testing.T) {
+	for _, cs := range []int{1048575, 1048576} {
+		data := lcgBytes(4*cs+17, byte(cs), 0)
+		st := NewStore()
+		root, _, err := buildFile(st, data, fmt.Sprintf("size-%d", cs), 174)
+		if err != nil {
+			t.Fatal(err)
+		}
+		tree, err := st.FileTree(root, 0)
+		if err != nil {
+			t.Fatal(err)
+		}
+		ls := st.LinkSystem()
+		for _, r := range [][2]int64{{0, 10}, {int64(cs) - 5, int64(cs) + 5}, {int64(2*cs) + 1, int64(2*cs) + 2}, {int64(4 * cs), int64(4*cs) + 17}, {int64(3*cs) - 1, int64(3 * cs)}} {
+			pn, _ := loadPlain(ls, root)
+			st.ResetLogs()
+			rn, err := unixfsnode.Reify(ipld.LinkContext{}, pn, ls)
+			if err != nil {
+				t.Fatal(err)
+			}
+			rs, _ := rn.(datamodel.LargeBytesNode).AsLargeBytes()
+			if _, err := rs.Seek(r[0], io.SeekStart); err != nil {
+				t.Fatal(err)
+			}
+			buf := make([]byte, r[1]-r[0])
+			if _, err := io.ReadFull(rs, buf); err != nil || !bytes.Equal(buf, data[r[0]:r[1]]) {
+				t.Fatalf("C05 largest chunks (size-%d) range %v: read failed: %v", cs, r, err)
+			}
+			want := map[cid.Cid]bool{}
+			tree.Needed(r[0], r[1], want)
+			if c, ok := subsetOf(st.ReadLog(), want); !ok {
+				t.Fatalf("C05 largest chunks (size-%d) range [%d,%d): block %s requested although the range does not touch it (%d requested, %d needed)", cs, r[0], r[1], c, len(st.ReadLog()), len(want)-1)
+			}
+		}
+	}
+}
